@@ -40,27 +40,47 @@ def check(ctx, ws, msb):
     ctx.ob('C50.word-length', 'SPIDeviceInterface.bit_count.compare[%s]' % tag, edges_per_word == ws, acc[0].loc,
            'a word is reported after %d sample edges, word_size is %d (%s)' % (edges_per_word, ws, cmp_e.canon()))
     done_guard = q.atoms(acc[0])
-    resets = [a for a in ir.drivers(cnt, exact=True) if q.is_zero(a.rhs)]
-    incs = [a for a in ir.drivers(cnt, exact=True) if isinstance(a.rhs, E) and a.rhs.op == '+']
-    on_done = [a for a in resets if q.atoms(a) == done_guard and incs and a.order > max(i.order for i in incs)]
-    natural = si.w is not None and (1 << si.w) == ws and not [a for a in ir.drivers(cnt, exact=True)
-                                                             if a not in resets and a not in incs]
-    ctx.ob('C50.explicit-wrap', 'SPIDeviceInterface.bit_count.reset-on-word[%s]' % tag, bool(on_done) or natural, acc[0].loc,
-           'the bit counter %s (width %s) is compared with word_size=%d but not reset under that comparison; natural '
-           'overflow happens at %s' % (cnt, si.w, ws, (1 << si.w) if si.w else '?'))
+    # next value of the bit counter for every valuation of the conditions its writers mention (last assignment wins;
+    # increment-then-override, If/Elif/Else and flag expressions alike): chip select inactive -> 0; a sample edge that
+    # completes the word -> 0 (or +1 when the counter overflows exactly at word_size); any other sample edge -> +1;
+    # otherwise it keeps its value
+    from ..fsm import lit_atoms, assignments, holds
     cs_atoms = [(a, p) for a, p in done_guard if 'spi.cs' in a]
     ctx.need(len(cs_atoms) == 1, 'chip select atom in the completion guard')
     cs_atom, cs_pol = cs_atoms[0]
-    idle = [a for a in resets if q.atoms(a) == {(cs_atom, not cs_pol)}]
-    ctx.ob('C50.explicit-wrap', 'SPIDeviceInterface.bit_count.reset-on-cs[%s]' % tag, len(idle) == 1,
-           idle[0].loc if idle else None, 'bit counter must be cleared while chip select is inactive')
+    sample_guard = done_guard - {(cmp_e.canon(), True)}
+    natural = si.w is not None and (1 << si.w) == ws
+    cd = sorted(ir.drivers(cnt, exact=True), key=lambda a: a.order)
+    ats = sorted({x for a in cd for l in a.guard for x in lit_atoms(l)} | {x for x, _ in done_guard})
+    bad_cs = bad_word = bad_inc = None
+    for asg in assignments(ats):
+        fire = [a for a in cd if holds(a.guard, asg)]
+        last = fire[-1] if fire else None
+        kind = None if last is None else '0' if q.is_zero(last.rhs) else '+1' if q.rhs_canon(last) == '1 + ' + cnt else q.rhs_canon(last)
+        show = {k: v for k, v in asg.items()}
+        if asg[cs_atom] != cs_pol:
+            if kind != '0' and bad_cs is None:
+                bad_cs = (show, kind)
+        elif all(asg[x] == p for x, p in sample_guard):
+            if asg[cmp_e.canon()]:
+                if not (kind == '0' or (natural and kind == '+1')) and bad_word is None:
+                    bad_word = (show, kind)
+            elif kind != '+1' and bad_inc is None:
+                bad_inc = (show, kind)
+        elif kind is not None and bad_inc is None:
+            bad_inc = (show, kind)
+    ctx.ob('C50.explicit-wrap', 'SPIDeviceInterface.bit_count.reset-on-word[%s]' % tag, bad_word is None, acc[0].loc,
+           'the bit counter %s (width %s) must restart when the sample edge completes a word of %d bits (natural overflow happens '
+           'at %s): next value %s when %s' % (cnt, si.w, ws, (1 << si.w) if si.w else '?', bad_word and bad_word[1], bad_word and bad_word[0]))
+    ctx.ob('C50.explicit-wrap', 'SPIDeviceInterface.bit_count.reset-on-cs[%s]' % tag, bad_cs is None,
+           cd[0].loc if cd else None, 'bit counter must be cleared while chip select is inactive: next value %s when %s' % (
+               bad_cs and bad_cs[1], bad_cs and bad_cs[0]))
     ctx.ob('C50.counter-range', 'SPIDeviceInterface.bit_count.range[%s]' % tag,
            si.w is not None and (1 << si.w) >= ws and (si.rng is None or si.rng[1] >= ws), si.loc,
            'bit counter range %s / width %s must hold word_size-1 = %d' % (si.rng, si.w, ws - 1))
-    sample_guard = done_guard - {(cmp_e.canon(), True)}
-    ctx.ob('C50.count-on-sample', 'SPIDeviceInterface.bit_count.inc[%s]' % tag,
-           len(incs) == 1 and q.atoms(incs[0]) == sample_guard and incs[0].rhs.canon() == '1 + ' + cnt, incs[0].loc if incs else None,
-           'bit counter increments by one on every sample edge while selected')
+    ctx.ob('C50.count-on-sample', 'SPIDeviceInterface.bit_count.inc[%s]' % tag, bad_inc is None, cd[0].loc if cd else None,
+           'bit counter increments by one on every sample edge while selected and holds otherwise: next value %s when %s' % (
+               bad_inc and bad_inc[1], bad_inc and bad_inc[0]))
     # (b) shifters
     rx = [a for a in ir.drivers('current_rx', exact=True)]
     want_rx = 'Cat(self.spi.sdi, current_rx[0:%d])' % (ws - 1) if msb else 'Cat(current_rx[1:%d], self.spi.sdi)' % ws
@@ -101,9 +121,15 @@ def check(ctx, ws, msb):
         not wc_bad and bool(ir.drivers('self.word_complete', exact=True))
     ctx.ob('C50.word-report', 'SPIDeviceInterface.word_in[%s]' % tag, ok, wi[0].loc if wi else None,
            'word_in <= current_rx and a one-cycle word_complete exactly when a word was accepted')
-    dflt = [a for a in ir.drivers('self.word_accepted', exact=True) if q.is_zero(a.rhs) and not a.guard and a.order < acc[0].order]
-    ctx.ob('C50.word-report', 'SPIDeviceInterface.word_accepted.pulse[%s]' % tag, len(dflt) == 1, acc[0].loc,
-           'word_accepted must default to 0 (single-cycle strobe)')
+    # word_accepted is a one-cycle strobe: its next value is 1 exactly under the completion conditions, 0 otherwise
+    wa_bad = None
+    for asg, v in q.flag_values(ir, WA, None, init=None):
+        want_ = all(asg.get(x) == p for x, p in done_guard)
+        if v is not want_ and wa_bad is None:
+            wa_bad = (asg, v)
+    ctx.ob('C50.word-report', 'SPIDeviceInterface.word_accepted.pulse[%s]' % tag, wa_bad is None, acc[0].loc,
+           'word_accepted must be a single-cycle strobe (1 exactly when a word completes, 0 otherwise): next value %s when %s' % (
+               wa_bad and wa_bad[1], wa_bad and wa_bad[0]))
 
 
 def run(ctx):
